@@ -74,6 +74,7 @@ func NewTask(workflow *Workflow, process *Process, name string, cmdPat string, i
 				oip.doStream = true
 			}
 		}
+		oip.taskDir = t.TempDir()
 		t.OutIPs[oname] = oip
 	}
 	t.Command = t.formatCommand(cmdPat, portInfos, inIPs, t.subStreamIPs, t.OutIPs, params, tags, prepend)
